@@ -21,7 +21,7 @@ ASSUMPTIONS = ["headers that contain the exact token as a whitespace-delimited w
                "'changes nothing' is decided on the enumerated fingerprint; the log file is outside it",
                "Flask test client, not a socket server"]
 REQUIRED = {"parts_with_held_app_context": 8, "refused_after_authorised": 500, "requests_refused": 3000, "fingerprint_comparisons": 3000, "control_served": 10, "rules_enumerated": 15}
-BUDGET_S = {"quick": 110, "thorough": 900}
+BUDGET_S = {"quick": 170, "thorough": 900}
 TOKEN = "Tok3n-ab+c.DEF|alt"        # (characters that mean something to pattern languages are ordinary characters of a secret)
 OTHER_TOKEN = "0ther-Server.t0ken"
 PUBLIC = {"/", "/healthy", "/metrics", "/full-metrics"}
